@@ -701,12 +701,12 @@ def main(ctx):
         total += len(scs)
 
         # ---- TLC generated cases ----
-        plan = [('tab_rfl9', 2500, 2), ('tab_rfl2', 1800, 2),
-                ('tab_dfl', 1400, 3),
-                ('tab_marks', 1400, 1),
+        plan = [('tab_rfl9', 2300, 2), ('tab_rfl2', 1600, 2),
+                ('tab_dfl', 1200, 3),
+                ('tab_marks', 1200, 1),
                 ('tab_redA', 1300, 1), ('tab_redB', 400, 1),
-                ('tab_exw', 700, 1),
-                ('tab_two_out', 1400, 1), ('tab_two_both', 1200, 1),
+                ('tab_exw', 600, 1),
+                ('tab_two_out', 1200, 1), ('tab_two_both', 1000, 1),
                 ('tab_two_none', 300, 1)] + \
             ([] if quick else [('tab_two_err', 1400, 1)]) + [
                 ('sim_two', 1000, 1), ('sim_marks', 1000, 1),
